@@ -6,6 +6,7 @@ import (
 	"os"
 	"sort"
 	"strings"
+	"sync"
 	"testing"
 	"testing/synctest"
 	"time"
@@ -121,6 +122,7 @@ func runTxScenarios(t *testing.T, scens []txScen, deadline time.Time) ([]txResul
 				w.SetExtra(txGateHook)
 				r := sched.NewRun()
 				obs := map[string][]model.Obs{}
+				var obsMu sync.Mutex // threads run concurrently in the free-running cleanup phase
 				for _, th := range sc.threads {
 					th := th
 					// resolve the calls up front against the prepared model state
@@ -136,7 +138,9 @@ func runTxScenarios(t *testing.T, scens []txScen, deadline time.Time) ([]txResul
 						tr := &hist.Runner{W: w, M: m, Bare: true, Ctx: vsql.WithThread(context.Background(), th.name)}
 						for _, c := range calls {
 							o := tr.Exec(c)
+							obsMu.Lock()
 							obs[th.name] = append(obs[th.name], o)
+							obsMu.Unlock()
 						}
 					})
 				}
